@@ -20,7 +20,7 @@ CLAIMED = {
          "static analysis: path-sensitive slot-coverage/provenance abstract interpretation over go/ssa", "DESIGN.md §5 C06"),
  "C07": ("Sound static decision: continue mode has no early loop exit; exactly one exec chain per item unless cancelled; per-item chain obeys the C02 rules; the per-item path's write effects are its own slot and boolean constants to the mutex-guarded flag only; failed slots hold the last attempt's/fallback's error; function-style exec never passes an item over; the mode setters write the mode.",
          "static analysis: path-sensitive per-item typestate + effect analysis over go/ssa", "DESIGN.md §5 C07"),
- "C08": ("Sound static decision of the structural cause of the bound and of its usability: exactly max(1,workers) worker goroutines are started (symbolic trip count) and nothing else in the package starts goroutines; each worker runs one received task at a time synchronously; only the worker function takes tasks off the queue; item executions happen only inside submitted tasks on a pool sized by the node's configured concurrency, and in index order without a pool when concurrency<=0. Scheduling itself is not decided.",
+ "C08": ("Sound static decision of the structural cause of the bound and of its usability: exactly max(1,workers) worker goroutines are started (symbolic trip count) and nothing else in the package starts goroutines; each worker runs one received task at a time synchronously; only the worker function takes tasks off the queue; item executions happen only inside submitted tasks on a pool sized by the node's configured concurrency, and in index order without a pool when concurrency<=0; no item executes while the batch mutex is held and nothing is submitted after the pool was waited on (no barrier between submissions). Scheduling itself is not decided.",
          "static analysis: trip-count analysis of the spawn loop + path-sensitive typestate of worker and batch dispatch over go/ssa", "DESIGN.md §5 C08"),
  "C09": ("Sound static decision: stop mode halts (sequential: no exec after a stored failure; concurrent: flag read under the mutex gates exec, failing task sets it under the mutex, mutex released on all task paths) ; Submit queues by one blocking send in the caller (start order = item order with one worker); and slot coverage: every slot is assigned an item outcome or an error on every path reaching post.",
          "static analysis: path-sensitive slot-coverage + lock-held typestate over go/ssa", "DESIGN.md §5 C09"),
@@ -38,7 +38,7 @@ CLAIMED = {
          "static analysis: may-panic scan + path-sensitive reflect-precondition check + decision-table extraction vs. specification table", "DESIGN.md §5 C15"),
  "C16": ("Sound static decision that neither Bind can panic (reflect preconditions implied by path facts), that the identity copy happens exactly under type identity and copies the value itself, that otherwise json.Unmarshal receives exactly json.Marshal's output and the destination and both errors are returned, that invalid inputs end in errors, that Bind writes nothing but the destination, that both Binds have the same outcome classes, and that the value a Result binds is exactly its constructor's argument. encoding/json itself is the reference.",
          "static analysis: may-panic scan + path-sensitive reflect-precondition and Marshal->Unmarshal provenance check + sibling comparison", "DESIGN.md §5 C16"),
- "C17": ("Sound static decision, by compositional symbolic exploration of every producer/consumer adapter pair of function-style nodes, that the Result a phase function receives carries exactly the value the previous phase's function returned, that an error Result from exec reaches post as the identical Result (no second wrap, no strip), that batch items reach exec unwrapped, and that the Any-style wrappers of all three construction forms meet one specification (hence are interchangeable), and that the builders' phase methods hand the embedded node's results back unchanged. Assumes payloads are not themselves Results (A5).",
+ "C17": ("Sound static decision, by compositional symbolic exploration of every producer/consumer adapter pair of function-style nodes, that the Result a phase function receives carries exactly the value the previous phase's function returned, that an error Result from exec reaches post as the identical Result (no second wrap, no strip), that batch items reach exec unwrapped, and that the Any-style wrappers of all three construction forms meet one specification (hence are interchangeable), that the builders' phase methods hand the embedded node's results back unchanged, and that Run hands post exactly what the successful exec returned. Assumes payloads are not themselves Results (A5).",
          "static analysis: compositional symbolic exploration of adapter pairs + wrapper summaries vs. specification", "DESIGN.md §5 C17"),
  "C18": ("Sound static decision that every nil-error return of Run (single, batch, empty batch) carries a provably non-empty action.",
          "static analysis: path-sensitive return-predicate analysis over go/ssa", "DESIGN.md §5 C18"),
